@@ -73,6 +73,15 @@ j = load_json(js)
 add_key(j0, j[0])
 rename(word, w)
 set_tag(word)
+hi = inf
+lo = -inf
+if f < hi { add_key(below_hi, true) }
+if lo < f { add_key(above_lo, true) }
+add_key(hi_pos, hi > 0)
+add_key(lo_neg, lo < 0)
+big = 0x7fffffffffffffff
+add_key(big_pos, big > 0)
+add_key(t_is, true == true)
 `,
 	"lib.p": `for i = 0; i < 3; i = i + 1 {
   add_key(cnt, i)
@@ -113,7 +122,10 @@ func loadFailing() ([]*plruntime.Script, error) {
 }
 
 var parseSources = []string{"x = 1 + 2 * 3\nif x { y = [1, {\"a\": x}] }", "for i = 0; i < 3; i = i + 1 { f(i) }", "x = (1 + ] 2", "a = \"abc", "-0x",
-	"grok(_, \"%{WORD:w}\")\nadd_key(k, w)", "x = a[1:2:3]\ny = b.c.d\nz = `q r`", ""}
+	"grok(_, \"%{WORD:w}\")\nadd_key(k, w)", "x = a[1:2:3]\ny = b.c.d\nz = `q r`", "",
+	// signed spellings of the number keywords and of literals the shared script also spells: a sign folded into a literal must not reach
+	// any other tree
+	"floor = -inf\nceil = +inf\nq = -nan", "a = -0x7fffffffffffffff\nb = - inf\nc = [-inf, inf, -1, -1.5, -true]", "m = {\"k\": -inf}\nf(-inf, x = -nan)"}
 
 // freshSource builds a source text never parsed before in this process: unique identifiers, numbers and strings, and
 // keywords in a random letter case (cold paths: first-use initialisation, caches and memo tables are exercised concurrently).
